@@ -8,7 +8,7 @@ from . import celx, evalx
 from .c09 import L
 from .core import Ctx, read_dump, pmap
 
-INV = "SPECIFICATION Spec\nINVARIANT RoundTrip\nINVARIANT LawsHold\nINVARIANT InRange\nINVARIANT TruncatesTowardZero\nCHECK_DEADLOCK FALSE\n"
+INV = "SPECIFICATION Spec\nINVARIANT RoundTrip\nINVARIANT LawsHold\nINVARIANT InRange\nINVARIANT StrictConversions\nINVARIANT TruncatesTowardZero\nCHECK_DEADLOCK FALSE\n"
 
 
 def cv(f, a):
